@@ -11,6 +11,7 @@ REGISTRY = {
     'rep':      lambda repo, sd, canary=False: smallslices.build_rep(repo, sd, canary=canary),
     'order':    lambda repo, sd, canary=False: smallslices.build_order(repo, sd, canary=canary),
     'splice':   lambda repo, sd, canary=False: smallslices.build_splice(repo, sd, canary=canary),
+    'escaper':  lambda repo, sd, canary=False: smallslices.build_escaper(repo, sd, canary=canary),
     'gates':    lambda repo, sd, canary=False: smallslices.build_gates(repo, sd, canary=canary),
     'tables':   lambda repo, sd, canary=False: tables.build(repo, sd, canary=canary),
     'dfa':      lambda repo, sd, canary=False: dfa.build(repo, sd, kf=False, canary=canary),
@@ -27,13 +28,13 @@ REGISTRY = {
 }
 # units whose obligations carry a property (an obligation counts for a property only if its clause is tagged with it)
 PROP_UNITS = {
-    'C01': ['expr', 'elim', 'matrix', 'regexp', 'caseconv', 'split', 'rep', 'dfa', 'dfa_kf', 'trie', 'render', 'format'],
+    'C01': ['expr', 'elim', 'matrix', 'regexp', 'caseconv', 'split', 'escaper', 'rep', 'dfa', 'dfa_kf', 'trie', 'render', 'format'],
     'C02': ['expr', 'elim', 'matrix', 'regexp', 'dfa', 'gates', 'render', 'format'],
     'C03': ['classify', 'gates', 'trie'],
     'C04': ['caseconv', 'regexp', 'render'],
     'C05': ['trie', 'render', 'rep', 'splice'],
     'C06': ['render', 'format'],
-    'C07': ['expr', 'elim', 'matrix', 'regexp', 'builder', 'split', 'caseconv', 'rep', 'splice', 'gates', 'render', 'format', 'order', 'dfa', 'trie', 'cli', 'escape', 'classify'],
+    'C07': ['expr', 'elim', 'matrix', 'regexp', 'builder', 'split', 'escaper', 'caseconv', 'rep', 'splice', 'gates', 'render', 'format', 'order', 'dfa', 'trie', 'cli', 'escape', 'classify'],
     'C08': ['render', 'expr', 'regexp', 'format'],
     'C09': ['tables', 'classify'],
     'C10': ['builder', 'regexp', 'gates', 'order'],
